@@ -251,6 +251,7 @@ pub struct World {
     pub ghost out_deleted: Set<Seq<char>>,       // C19: the directories `out delete` was pointed at (as given to the OS)
     pub ghost pointer_reads: nat,                // how often the run pointer file was read
     pub ghost shown: Seq<Seq<char>>,             // `log show`: the archives streamed to stdout, in order
+    pub ghost graph_checked: bool,               // C09: the configuration's dependency graph has been built and found acyclic (Index::new returned Ok)
     pub ghost effects: nat,
     pub ghost bind_attempts: nat,                // attempts to bind the lock address
     pub ghost addr_in_use: bool,                 // another process holds the lock address right now                      // number of mutating application entry points entered
